@@ -247,3 +247,69 @@ def bit_reverse_unitary(U, nq):
     for i, j in enumerate(perm):
         P[j, i] = 1
     return P @ U @ P.T
+
+
+# -- exact amplitude semantics for circuits over {H, X, Z, CX, CCX, MCX, CZ, MC-Z, barrier} ---------------------
+# state = integer vector v with one global exponent h: amplitude_i = v_i / sqrt(2)^h.  No floating point.
+
+class ASim:
+    def __init__(self, nq):
+        import numpy as np
+        self.nq = nq
+        self.v = np.zeros(1 << nq, dtype=object)
+        self.v[0] = 1
+        self.h = 0
+        self.idx = np.arange(1 << nq)
+
+    def apply(self, gates):
+        import numpy as np
+        for g, ws, p in gates:
+            k = type(g).__name__
+            if k in ("Barrier", "NopGate", "I"):
+                continue
+            inner = type(g.gate).__name__ if k == "MCtrl" else None
+            if k == "H":
+                q = ws[0]
+                bit = (self.idx >> q) & 1
+                partner = self.v[self.idx ^ (1 << q)]
+                # |0> -> |0>+|1>, |1> -> |0>-|1|
+                self.v = np.where(bit == 0, self.v + partner, partner - self.v)
+                self.h += 1
+                self._reduce()
+            elif k == "X":
+                self.v = self.v[self.idx ^ (1 << ws[0])]
+            elif k == "Z":
+                self.v = np.where((self.idx >> ws[0]) & 1 == 1, -self.v, self.v)
+            elif k in ("CX", "CCX", "MCX") or (k == "MCtrl" and inner == "X"):
+                cm = 0
+                for w in ws[:-1]:
+                    cm |= 1 << w
+                ctrl = (self.idx & cm) == cm
+                self.v = np.where(ctrl, self.v[self.idx ^ (1 << ws[-1])], self.v)
+            elif k == "CZ" or (k == "MCtrl" and inner == "Z"):
+                cm = 0
+                for w in ws:
+                    cm |= 1 << w
+                self.v = np.where((self.idx & cm) == cm, -self.v, self.v)
+            else:
+                raise ValueError(f"gate {k} has no exact integer semantics here")
+        return self
+
+    def _reduce(self):
+        import numpy as np
+        while self.h >= 2 and all(int(x) % 2 == 0 for x in self.v):
+            self.v = np.array([int(x) // 2 for x in self.v], dtype=object)
+            self.h -= 2
+
+    def distribution(self, out_qubits):
+        """exact probabilities of the readings of out_qubits: dict bits-tuple(lsb first = out_qubits order) -> Fraction"""
+        from fractions import Fraction
+        d = {}
+        den = 1 << self.h
+        for i, x in enumerate(self.v):
+            x = int(x)
+            if x == 0:
+                continue
+            key = tuple((i >> q) & 1 for q in out_qubits)
+            d[key] = d.get(key, 0) + x * x
+        return {k: Fraction(v, den) for k, v in d.items()}
